@@ -3,6 +3,7 @@ package props
 import (
 	"bytes"
 	"fmt"
+	"os"
 	"runtime"
 	"strings"
 	"sync"
@@ -384,4 +385,86 @@ func waitPool(t *rapid.T, env *batchEnv, pool int) {
 		}
 		time.Sleep(5 * time.Millisecond)
 	}
+}
+
+// TestC13LongOutage: the backend is gone -- nothing listens -- for seconds,
+// long enough for a pooled connection's reconnect loop to go through many
+// back-off rounds, with calls made during the outage.  Once the backend
+// listens again, the blocked calls complete (result or error) and the pool
+// serves normally; the process is still there.
+func TestC13LongOutage(t *testing.T) {
+	rec := evid.For("C13")
+	shard, _ := evid.Shard()
+	pool := []int{1, 2, 4}[shard%3]
+	cfg := batchCfg{Size: 2, Delay: 250, Pool: pool}
+	env := batchEnvFor(cfg)
+	f := env.fake
+	f.Disarm()
+	f.Refuse(false)
+	f.Reset()
+	h := env.handler()
+	if res, _ := execHandler(h, wire.Cmd{Kind: wire.Set, Key: "lo-before", Value: []byte("v0")}, 0); res.Err != nil {
+		t.Fatalf("harness: set before the outage: %v", res.Err)
+	}
+	outage := time.Duration(5500+500*(shard%3)) * time.Millisecond
+	f.StopListening()
+	f.CloseConns()
+	type outcome struct {
+		i   int
+		err error
+	}
+	callers := 3 * pool
+	done := make(chan outcome, callers)
+	for i := 0; i < callers; i++ {
+		go func(i int) {
+			time.Sleep(time.Duration(i*150) * time.Millisecond) // calls spread over the outage
+			res, _ := execHandler(env.handler(), wire.Cmd{Kind: wire.Set, Key: fmt.Sprintf("lo-during-%d", i), Value: []byte("vd")}, 0)
+			done <- outcome{i, res.Err}
+		}(i)
+	}
+	time.Sleep(outage)
+	os.Remove(env.sock)
+	if err := f.ListenUnix(env.sock); err != nil {
+		t.Fatalf("harness: cannot listen on %s again: %v", env.sock, err)
+	}
+	acked := map[int]bool{}
+	for n := 0; n < callers; n++ {
+		select {
+		case o := <-done:
+			if o.err == nil {
+				acked[o.i] = true
+			}
+		case <-time.After(90 * time.Second):
+			var dump [1 << 17]byte
+			k := runtime.Stack(dump[:], true)
+			p := rec.Violation("TestC13LongOutage", map[string]interface{}{"pool": pool, "outage_ms": outage.Milliseconds(), "unfinished_calls": callers - n})
+			t.Fatalf("C13 long outage (pool %d, nothing listening for %v): %d of %d calls made during the outage are still blocked 90 s after the backend listens again; replay %s; goroutines:\n%s", pool, outage, callers-n, callers, p, dump[:k])
+		}
+	}
+	// the pool serves normally again
+	deadline := time.Now().Add(60 * time.Second)
+	for {
+		res, _ := execHandler(env.handler(), wire.Cmd{Kind: wire.Set, Key: "lo-after", Value: []byte("v1"), Flags: 4}, 0)
+		if res.Err == nil {
+			break
+		}
+		if time.Now().After(deadline) {
+			p := rec.Violation("TestC13LongOutage", map[string]interface{}{"pool": pool, "outage_ms": outage.Milliseconds(), "error": res.Err.Error()})
+			t.Fatalf("C13 long outage (pool %d): a minute after the backend listens again sets still fail: %v; replay %s", pool, res.Err, p)
+		}
+		time.Sleep(50 * time.Millisecond)
+	}
+	got, _ := execHandler(env.handler(), wire.Cmd{Kind: wire.Get, Keys: []string{"lo-after", "lo-before"}}, 0)
+	if got.Err != nil || got.Hits[0] == nil || string(got.Hits[0].Value) != "v1" || got.Hits[0].Flags != 4 || got.Hits[1] == nil || string(got.Hits[1].Value) != "v0" {
+		p := rec.Violation("TestC13LongOutage", map[string]interface{}{"pool": pool})
+		t.Fatalf("C13 long outage (pool %d): get after recovery: %+v; replay %s", pool, got, p)
+	}
+	live := f.Live()
+	for i := range acked {
+		if e, ok := live[fmt.Sprintf("lo-during-%d", i)]; !ok || string(e.Value) != "vd" {
+			t.Fatalf("C13 long outage: the set of lo-during-%d was acknowledged but the backend holds %v %q", i, ok, e.Value)
+		}
+	}
+	rec.Case(true, fmt.Sprintf("longoutage|%d|%v", pool, outage), "outage-of-seconds-nothing-listening")
+	rec.Sample(true, map[string]interface{}{"pool": pool, "nothing_listening_ms": outage.Milliseconds(), "calls_during_outage": callers, "acknowledged": len(acked)})
 }
